@@ -398,9 +398,14 @@ def build_std_programs(ctx, nbatches, per_template, cases_per_program=50):
 def run_std(ctx, J, mc):
     nb = int(ctx.opts.get("std_batches", ctx.pick(40, 300)))
     per = int(ctx.opts.get("std_per_template", ctx.pick(3, 150)))
+    sub = ctx.extra.setdefault("std_subphase_seconds", {})
+    t0 = time.time()
     cat, gen, good, progs = build_std_programs(ctx, nb, per, cases_per_program=ctx.pick(50, 80))
+    sub["signatures+validation+generation"] = round(time.time() - t0, 1)
     ctx.count("std_programs", len(progs))
+    t0 = time.time()
     built, d = progrun.compile_all(sname(ctx, "c02std"), [(p.name, p.source()) for p in progs])
+    sub["compile"] = round(time.time() - t0, 1)
     ctx.c02_dirs.append(d)
     cwd = os.path.join(d, "cwd")
     os.makedirs(cwd, exist_ok=True)
@@ -431,7 +436,10 @@ def run_std(ctx, J, mc):
         res = {cfg: runner(cfg, timeout, 0) for cfg in CFGS}
         return job, res, runner
 
-    for (p, c), res, runner in execu.pmap(one, jobs):
+    t0 = time.time()
+    results = execu.pmap(one, jobs)
+    sub["run"] = round(time.time() - t0, 1)
+    for (p, c), res, runner in results:
         t = c.template
         callee = t.sig.callee()
         ident = "%s case %d: %s [%s]%s" % (p.name, c.idx, t.key(cat), ", ".join(c.labels), " opaque" if c.opaque else "")
